@@ -336,3 +336,25 @@ Print Assumptions C05_read_rendered_number.
 Theorem C05_read_rendered_text_field : forall lead w s, trim_space s = s -> trim_space (render_text lead w s) = s.
 Proof. exact render_text_trim. Qed.
 Print Assumptions C05_read_rendered_text_field.
+
+(* ---- the model's byte offsets are the offsets probed from the code on this run (audit item: C05_layouts_are_ebu above
+   compares generated constants with literals; these theorems tie the MODEL's functions to the generated tables: the
+   parsers written over a layout table equal the model's parsers when the table is the generated one, and the writers'
+   field sequences have the generated offsets and widths; all by computation, so a layout change in the code breaks them) *)
+From Astisub Require Import Proofs.StlLayout.
+Theorem C05_parse_gsi_uses_generated_layout : forall b, parse_gsi b = parse_gsi_at stl_gsi_parse_layout b.
+Proof. exact parse_gsi_uses_generated_layout. Qed.
+Theorem C05_parse_tti_uses_generated_layout : forall p fps, parse_tti p fps = parse_tti_at stl_tti_parse_layout p fps.
+Proof. exact parse_tti_uses_generated_layout. Qed.
+Theorem C05_gsi_bytes_uses_generated_layout :
+  sort_by_id (offsets gsi_field_ids gsi_widths 0) = stl_gsi_write_layout /\
+  (forall g, gsi_bytes g = concat (gsi_fields g) /\ map (@length N) (gsi_fields g) = gsi_widths).
+Proof. exact gsi_bytes_uses_generated_layout. Qed.
+Theorem C05_tti_bytes_uses_generated_layout :
+  sort_by_id (offsets tti_field_ids tti_widths 0) = stl_tti_write_layout /\
+  (forall fps dsc tcp t, tti_bytes fps dsc tcp t = concat (tti_fields fps dsc tcp t) /\ map (@length N) (tti_fields fps dsc tcp t) = tti_widths).
+Proof. exact tti_bytes_uses_generated_layout. Qed.
+Print Assumptions C05_parse_gsi_uses_generated_layout.
+Print Assumptions C05_parse_tti_uses_generated_layout.
+Print Assumptions C05_gsi_bytes_uses_generated_layout.
+Print Assumptions C05_tti_bytes_uses_generated_layout.
